@@ -55,6 +55,15 @@ def floors(tier):
 def _gen_multi(rng):
     nv = rng.choice([2, 3, 3, 4])
     case = multi.gen_case(rng, nvars=(nv, nv), depth=(2, 4), opts={"p_leaf": 0.15, "preds": rng.random() < 0.5})
+    if rng.random() < 0.1:
+        # alternatives nested to the right whose LAST one joins a variable that was declared first: or_(a(x), or_(b(x), x.a in y.t));
+        # the inner disjunction leaves y unbound for some rows and binds it for others
+        world = D.random_world(rng, np_=(3, 5), nq=(2, 4), hi=4)
+        A = lambda i, f: ["v", i, [["a", f]]]
+        join = rng.choice([["in", A(1, "a"), A(0, "t")], ["has", A(0, "t"), A(1, "b")], ["cmp", "==", A(1, "a"), A(0, "b")]])
+        a_ = ["cmp", rng.choice([">", "=="]), A(1, "a"), ["lit", rng.randint(2, 4)]]
+        b_ = ["cmp", rng.choice(["<", "=="]), A(1, "b"), ["lit", rng.randint(1, 2)]]
+        return {"world": world, "kinds": ["P", rng.choice("PQ")], "cond": ["or", a_, ["or", b_, join]], "sel": rng.choice([[1, 0], [0, 1], [1]])}
     if rng.random() < 0.25:
         # disjunction over EQUAL variable sets whose left side is a conjunction, only part of the variables selected,
         # few distinct values: the re-evaluation answers true and false rows of the same selected value from the cache
